@@ -93,6 +93,11 @@ func (o *Obligation) smtText() string {
 		sb.WriteString(memPrelude)
 		sb.WriteString(mem.String())
 	}
+	if _, ok := c.decls.funs["ikey"]; ok {
+		// interface-typed map keys: the folding of (type tag, object, index) into one Int is injective
+		sb.WriteString("(declare-fun ikey_0 (Int) Int)\n(declare-fun ikey_1 (Int) Int)\n(declare-fun ikey_2 (Int) Int)\n")
+		sb.WriteString("(assert (forall ((a Int) (b Int) (c Int)) (! (and (= (ikey_0 (ikey a b c)) a) (= (ikey_1 (ikey a b c)) b) (= (ikey_2 (ikey a b c)) c)) :pattern ((ikey a b c)))))\n")
+	}
 	sb.WriteString(body.String())
 	sb.WriteString("(check-sat)\n")
 	return sb.String()
